@@ -18,10 +18,14 @@ def _hold(*locks):
     q = env['self']
     for l in locks:
       q.f[l].held = 1
+      it.__dict__.setdefault('held_locks', []).append(q.f[l])
   return setup
 
 
 def register(R):
+  # lock hierarchy of IteratorQueue: the two conditions are never nested in each other and never acquired under the state lock
+  # (that is what _release_and_notify is for); the state lock may be taken while one condition is held
+  R.lock_ranks.update({'_enqueue_lock': 0, '_dequeue_lock': 0, '_states_lock': 1})
   R.cls('Progress', dict(cnt='int'))
   R.cls('IteratorQueue', dict(
       _queue='queue[obj]', _max_batch_size='int', name='str', timeout='obj?', _dequeue_lock='cond', _enqueue_lock='cond',
